@@ -2,6 +2,7 @@ import Lean.Data.Json
 import ExecModel.Cmd
 import ExecModel.Launcher
 import ExecModel.Props.C16
+import ExecModel.Props.C15
 /-!
   `modeld` — line protocol driver: one JSON object per line in, one JSON value per line out.
   Every request carries `"op"`.  Anything not understood yields `{"error": "bad-op"}`; nothing is
@@ -102,9 +103,48 @@ def cmdOps (op : String) (j : Json) : Except String (Option Json) := do
     pure (some (Json.mkObj [("srun", Json.str k), ("mpi", Json.str mk)]))
   | _ => pure none
 
+def getPairs (j : Json) (k : String) : Except String (List (String × Json)) := do
+  let a ← j.getObjValAs? (Array Json) k
+  a.toList.mapM (fun e => do
+    match e with
+    | Json.arr #[Json.str n, v] => pure (n, v)
+    | _ => throw s!"{k}: expected [name, value] pairs")
+
+def jPairs (l : List (String × Json)) : Json :=
+  Json.arr (l.map (fun (n, v) => Json.arr #[Json.str n, v])).toArray
+
+def jBindRes : Except (Preset.BindErr String) (List (String × Json)) → Json
+  | .ok b => Json.mkObj [("ok", jPairs b)]
+  | .error (.unexpected k) => Json.mkObj [("err", "unexpected"), ("names", Json.arr #[Json.str k])]
+  | .error (.multiple k) => Json.mkObj [("err", "multiple"), ("names", Json.arr #[Json.str k])]
+  | .error .tooMany => Json.mkObj [("err", "toomany"), ("names", Json.arr #[])]
+  | .error (.missing ks) => Json.mkObj [("err", "missing"), ("names", Json.arr (ks.map Json.str).toArray)]
+
+def presetOps (op : String) (j : Json) : Except String (Option Json) := do
+  match op with
+  | "call_funct" | "spec_call" =>
+    let sigJ ← j.getObjValAs? (Array Json) "sig"
+    let sig : Preset.Sig String Json ← sigJ.toList.mapM (fun e => do
+      let n ← getStr e "name"
+      let d := match e.getObjVal? "dflt" with | .ok v => some v | .error _ => none
+      pure (⟨n, d⟩ : Preset.Param String Json))
+    let args := (← j.getObjValAs? (Array Json) "args").toList
+    let kw ← getPairs j "kwargs"
+    let mem : Option (List (String × Json)) ← (match j.getObjVal? "mem" with
+      | .ok Json.null => pure none
+      | .ok _ => do pure (some (← getPairs j "mem"))
+      | .error _ => pure none)
+    if op == "call_funct" then
+      pure (some (jBindRes (Preset.callFunct (← getBool j "skip") sig mem args kw)))
+    else
+      match mem with
+      | some m => pure (some (jBindRes (C15.specCall sig m args kw)))
+      | none => pure (some (jBindRes (Preset.bind sig args kw)))
+  | _ => pure none
+
 end H
 
-def handlers : List (String → Json → Except String (Option Json)) := [H.cmdOps]
+def handlers : List (String → Json → Except String (Option Json)) := [H.cmdOps, H.presetOps]
 
 def handle (line : String) : Json :=
   match Json.parse line with
